@@ -99,6 +99,8 @@ def run(chk):
         made += 1
         muts = ([gen.mutate_value(rng, base) for _ in range(6)] + [gen.mutate_structure(rng, base) for _ in range(5)]
                 + gen.mutate_targeted(rng, base)[:60 if chk.tier == 'quick' else 140])
+        if made == 1:
+            muts = gen.boundary_families(rng) + muts
         for kind, m in muts:
             if kind == "noop":
                 continue
